@@ -217,3 +217,94 @@ def fam_line_point_to_t(R):
             R.ob('returned-parameter-is-the-point', ctx, z3.And(t.e >= 0, t.e <= 1, t.e == u.e, zabs(w.e) <= 1e-8), cex=cex,
                  robust=rb + [z3.Or(zabs(t.e - u.e) >= 0.01, zabs(w.e) >= 0.01)], timeout_ms=60000)
         R.sample({'result': 'None' if t is None else str(t)[:40]})
+
+
+REPLAY_PHASE = '''
+import math
+# arcs of both sweep directions against curves that cross them: every crossing of the arc must be reported (phase2t maps the phase of
+# the crossing on the unit circle to the arc parameter)
+curves = [Line(-3-2j, 5+4j), QuadraticBezier(-2-2j, 1+6j, 4-2j), CubicBezier(-3+0j, 0+4j, 2-4j, 5+1j)]
+for sw in (0, 1):
+    for la in (0, 1):
+        for rot in (30, -75, 0):
+            arc = Arc(0j, 2+1j, rot, la, sw, 3+1j)
+            for cv in curves:
+                if rot == 0 and isinstance(cv, Line): continue
+                r = arc.intersect(cv)
+                for t1, t2 in r:
+                    if not (0 <= t1 <= 1 and 0 <= t2 <= 1) or abs(arc.point(t1) - cv.point(t2)) > 1e-3:
+                        REPRODUCED('%%r.intersect(%%r) = %%r: points %%r / %%r' %% (arc, cv, r, arc.point(t1), cv.point(t2)))
+                def f(z):
+                    w = (z - arc.center) / arc.rot_matrix
+                    return (w.real / arc.radius.real) ** 2 + (w.imag / arc.radius.imag) ** 2 - 1
+                N = 2000; pts = [arc.point(i / N) for i in range(N + 1)]
+                M = 2000; pv = f(cv.point(0))
+                for i in range(1, M + 1):
+                    cur = f(cv.point(i / M))
+                    if pv * cur < 0:
+                        z = cv.point((i - .5) / M)
+                        k = min(range(N + 1), key=lambda k_: abs(z - pts[k_]))
+                        if abs(z - pts[k]) < 5e-3 and 0.01 < k / N < 0.99 and 0.01 < (i - .5) / M < 0.99:
+                            if not any(abs(a - k / N) < 5e-3 and abs(b - (i - .5) / M) < 5e-3 for a, b in r):
+                                REPRODUCED('%%r (delta %%r) crosses %%r near arc parameter %%r but intersect() = %%r' %% (arc, arc.delta, cv, k / N, r))
+                    if cur != 0: pv = cur
+'''
+
+
+def fam_phase2t(R, sign):
+    """Arc.phase2t(psi): psi is the phase (principal value, radians) of the eccentric angle alpha = theta + t* delta of a point of the
+    arc; the parameter returned must be t*.  Degree arithmetic as in the other arc families (pi = the angle of 180 degrees)."""
+    import svgpathtools.path as P
+    OPTS['sympy_normalise'] = True
+    OPTS['cmp_clear_den'] = True
+    R.bound(theta='[-180,180] symbolic', delta='(0,360)' if sign > 0 else '(-360,0)', t_star='[0,1] symbolic')
+    R.stub('psi % (2*pi) -> the representative in [0, 360) degrees', 'degrees -> identity on degree values', 'theta // 360 -> floor')
+
+    class DegVal:
+        def __init__(s, d):
+            s.d = d
+
+        def degrees(s):
+            return SR(s.d)
+
+    class Psi:
+        """an angle given by its principal value a in (-180, 180] degrees, as radians"""
+        def __init__(s, a):
+            s.a = a
+
+        def __mod__(s, o):
+            if abs(float(o) - 2 * 3.141592653589793) < 1e-9:
+                return DegVal(z3.If(s.a < 0, s.a + 360, s.a))
+            raise TypeError('unexpected modulus %r' % (o,))
+
+    def run():
+        cx = Ctx.cur
+        th, de, ts = symr('theta'), symr('delta'), symr('tstar')
+        jj = z3.Int('j')
+        cx.assume(th.e >= -180, th.e <= 180, ts.e >= 0, ts.e <= 1, jj >= -2, jj <= 2)
+        cx.assume(de.e > 0 if sign > 0 else de.e < 0, de.e < 360, de.e > -360)
+        a = symr('a')
+        cx.assume(a.e > -180, a.e <= 180, a.e + 360 * z3.ToReal(jj) == th.e + ts.e * de.e)
+        arc = object.__new__(P.Arc)
+        arc.theta, arc.delta = th, de
+        def int_(x):
+            if isinstance(x, SR):         # int() truncates towards zero
+                return SR(z3.If(x.e >= 0, z3.ToReal(z3.ToInt(x.e)), -z3.ToReal(z3.ToInt(-x.e))))
+            return int(x)
+        with patched(P, degrees=lambda x: x.degrees(), int=int_):
+            t = arc.phase2t(Psi(a.e))
+        return th, de, ts, a, t
+
+    for ctx, (kind, val) in explore(run, maxpaths=200, logic=None):
+        R.path(ctx)
+        if kind != 'ok':
+            R.unexpected(ctx, 'unexpected %s %r' % (kind, val))
+            continue
+        th, de, ts, a, t = val
+        t = lift(t)
+        tde = _normalise(z3.simplify(t.e * de.e))
+        # theta + t delta = theta + t* delta, except that the two ends of a full turn may be exchanged (outside: |delta| < 360)
+        R.ob('phase2t-returns-the-parameter', ctx, tde == ts.e * de.e,
+             cex=lambda m: {'cls': 'Arc.phase2t', 'inputs': {'theta': mval(m, th), 'delta': mval(m, de), 't*': mval(m, ts)}, 'script': REPLAY_PHASE % ()},
+             robust=[ts.e >= 0.1, ts.e <= 0.9, zabs(de.e) >= 30, zabs(de.e) <= 330, zabs(tde - ts.e * de.e) >= 1])
+        R.sample({'sign': sign})
